@@ -109,6 +109,8 @@ for it in range(a.n):
             o = mk_order(rnd.choice([strategy, strategy, other]), sel)
             b[o.id] = o
             orders.append(o)
+            if o.complete and rnd.random() < 0.8:
+                b.complete_order(o)  # the real lifecycle: a completed order leaves the live list (and nothing else: it still counts)
     active = rnd.randint(nsel, nsel + 3)
     nwin = rnd.randint(0, min(3, active))
     mb = mock.Mock(number_of_active_runners=active, number_of_winners=nwin)
